@@ -87,16 +87,19 @@ OAbortDone(ev) ==
   /\ busy' = [busy EXCEPT ![ev.p] = FALSE]
   /\ UNCHANGED <<nodes, inst, win, lastver, rd, cver, hold, abt, cmt, open, solo, solotries, solocommits, soloK, bad>>
 
-\* a request leaves a proposer; a Commit request names the version and value the proposer installs
+\* a request leaves a proposer; the first Commit request of a proposer for a version names the version and
+\* value its open section installs (later ones are the same Commit sent again after a transport error)
 OReq(ev) ==
   /\ IF ev.t = "Commit"
        THEN /\ inst' = inst \cup {<<ev.ver, ev.val>>}
             /\ win' = win \cup {<<ev.ver, ev.from>>}
-            /\ cver' = [cver EXCEPT ![ev.from] = ev.ver]
-            /\ bad' = bad \cup
-                 (IF \/ (rd[ev.from].ver >= 0 /\ rd[ev.from].ver # ev.ver - 1)
-                     \/ (ValuesOf(ev.ver - 1) # {} /\ rd[ev.from].val \notin ValuesOf(ev.ver - 1))
-                   THEN {"StaleReadAborts"} ELSE {})
+            /\ IF <<ev.ver, ev.from>> \in win
+                 THEN UNCHANGED <<cver, bad>>
+                 ELSE /\ cver' = [cver EXCEPT ![ev.from] = ev.ver]
+                      /\ bad' = bad \cup
+                           (IF \/ (rd[ev.from].ver >= 0 /\ rd[ev.from].ver # ev.ver - 1)
+                               \/ (ValuesOf(ev.ver - 1) # {} /\ rd[ev.from].val \notin ValuesOf(ev.ver - 1))
+                             THEN {"StaleReadAborts"} ELSE {})
        ELSE UNCHANGED <<inst, win, cver, bad>>
   /\ UNCHANGED <<nodes, lastver, rd, busy, hold, abt, cmt, open, solo, solotries, solocommits, soloK>>
 
